@@ -45,17 +45,17 @@ Variable um : list (Z * sval).
 Notation E' := (older keep E).
 Notation usub := (unpack E k).
 Notation usub' := (unpack (older keep E) k).
-Notation lim := (Z.min 2147483647 (Z.of_nat k)).
+Notation lim := (Z.min max_input (Z.of_nat k)).
 Notation pm := (proj E keep).
 Notation kd := (keep d).
 Notation md' := (drop_fields (keep d) md).
 Notation um' := (map (punion (proj E keep) (filter (keep d) (md_fields md))) um).
-Notation SubT v := (forall m, v = VMsg (Some m) -> sub_tr E (older keep E) (unpack E k) (unpack (older keep E) k) (proj E keep) (Z.min 2147483647 (Z.of_nat k)) m).
+Notation SubT v := (forall m, v = VMsg (Some m) -> sub_tr E (older keep E) (unpack E k) (unpack (older keep E) k) (proj E keep) (Z.min max_input (Z.of_nat k)) m).
 
-Lemma Hlim_min : Z.min 2147483647 (Z.of_nat k) <= 2147483647.
-Proof. lia. Qed.
+Lemma Hlim_min : Z.min max_input (Z.of_nat k) <= 2147483647.
+Proof. unfold max_input. lia. Qed.
 
-Lemma sub_rt_all : forall m, sub_rt E (unpack E k) (Z.min 2147483647 (Z.of_nat k)) m.
+Lemma sub_rt_all : forall m, sub_rt E (unpack E k) (Z.min max_input (Z.of_nat k)) m.
 Proof.
   intros m Cm b Hb Hlt. apply (roundtrip_canonical E EO m Cm k b Hb); unfold zlen in *; lia.
 Qed.
@@ -176,7 +176,7 @@ Proof.
       { cbn [dropped_unk]. rewrite Ek, EF. cbn [map concat t_A fst snd]. unfold q_f at 1, q_r at 1. cbn [fst snd].
         rewrite I9. f_equal.
         destruct Hpkg as (HF & Hok & _). unfold q_F, q_r, q_f in HF. cbn [fst snd] in HF. rewrite HF.
-        apply split_recs_spec; [exact Hid | exact Hok | rewrite <- HF; lia]. }
+        apply split_recs_spec; [exact Hid | exact Hok | rewrite <- HF; unfold max_input in *; lia]. }
 Qed.
 
 End Items.
